@@ -26,6 +26,7 @@ Theorem default_rule_dH (tpl rc : its) (l r : molg) :
   nodupb (node_ids tpl) = true -> (forall k a, In (k, a) (gnodes tpl) -> a_el (iH a) = a_el (iG a)) ->
   simple_edgesb (gedges tpl) = true -> synrule tpl true = Some (rc, l, r) ->
   exists R K : list N,
+    NoDup R /\ NoDup K /\
     (forall h, In h R <-> is_H_i tpl h = true /\ heavy_nbr (side0 iG eG tpl) h = true /\ heavy_nbr (side0 iH eH tpl) h = true) /\
     (forall k, In k K <-> In k (node_ids tpl) /\ is_H_i tpl k = false) /\
     sumZ dH rc = fold_right (fun h acc => (countZ (fun k => bonded eH tpl k h) K - countZ (fun k => bonded eG tpl k h) K) + acc) 0 R.
@@ -33,7 +34,7 @@ Proof.
   intros Hnd0 Hel Hs H. pose proof (nodupb_NoDup _ Hnd0) as Hnd.
   destruct (synrule_default_pointwise tpl rc l r Hnd0 Hel H) as (R & NR & Memb & Eids & _ & _ & Nrc & _ & Pt & _).
   set (K := filter (fun k => negb (is_H_i tpl k)) (node_ids rc)).
-  exists R, K. split; [exact Memb|]. split.
+  exists R, K. split; [exact NR|]. split; [unfold K; apply NoDup_filter; exact Nrc|]. split; [exact Memb|]. split.
   - intros k. unfold K. rewrite filter_In, Eids, filter_In. split.
     + intros [[I _] Hk]. split; [exact I|]. apply negb_true_iff. exact Hk.
     + intros [I Hk]. split; [split; [exact I|]|rewrite Hk; reflexivity].
@@ -74,11 +75,12 @@ Corollary default_rule_H_balanced (tpl rc : its) (l r : molg) :
   nodupb (node_ids tpl) = true -> (forall k a, In (k, a) (gnodes tpl) -> a_el (iH a) = a_el (iG a)) ->
   simple_edgesb (gedges tpl) = true -> synrule tpl true = Some (rc, l, r) ->
   exists R K : list N,
+    NoDup R /\ NoDup K /\
     (forall h, In h R <-> is_H_i tpl h = true /\ heavy_nbr (side0 iG eG tpl) h = true /\ heavy_nbr (side0 iH eH tpl) h = true) /\
     (forall k, In k K <-> In k (node_ids tpl) /\ is_H_i tpl k = false) /\
     ((forall h, In h R -> countZ (fun k => bonded eH tpl k h) K = countZ (fun k => bonded eG tpl k h) K) -> sumZ dH rc = 0).
 Proof.
-  intros Hnd0 Hel Hs H. destruct (default_rule_dH tpl rc l r Hnd0 Hel Hs H) as (R & K & Memb & HK & E).
-  exists R, K. split; [exact Memb|]. split; [exact HK|]. intros Hval. rewrite E. clear E Memb.
+  intros Hnd0 Hel Hs H. destruct (default_rule_dH tpl rc l r Hnd0 Hel Hs H) as (R & K & NR & NK & Memb & HK & E).
+  exists R, K. split; [exact NR|]. split; [exact NK|]. split; [exact Memb|]. split; [exact HK|]. intros Hval. rewrite E. clear E Memb NR HK.
   induction R as [|h R IH]; [reflexivity|]. cbn [fold_right]. rewrite (Hval h (or_introl eq_refl)), IH by (intros; apply Hval; right; assumption). lia.
 Qed.
